@@ -238,6 +238,9 @@ def evaluate_sequential(case, runner):
                     info["beyond_end"] = True
                 ref.run(t, incl)
                 exp = "ok"
+        if got == "DSOLError" and exp == "ok" and name == "step" \
+                and getattr(ref, "last_step_failed", False):
+            got = "ok"      # a failing step may also be reported as DSOLError
         if got != exp:
             cid = "command-outcome"
             if got is not None and got.startswith("exc:"):
